@@ -26,7 +26,7 @@ ANCHORS = ['numdifftools.finite_difference:LogRule.rule',
            'numdifftools.core:Derivative._set_derivative']
 MIN_COUNTERS = dict(quick={'history_calls_compared': 1500, 'histories': 300, 'warm_cache_calls': 250,
                            'cold_cache_calls': 100, 'shared_generator_calls': 100, 'mutate_restore_ops': 100,
-                           'threaded_calls_compared': 2000, 'thread_rounds': 40,
+                           'threaded_calls_compared': 1200, 'thread_rounds': 40,
                            'distinct_interleavings': 30, 'fresh_interpreter_references': 150},
                     thorough={'history_calls_compared': 80000, 'thread_rounds': 1500})
 RULE = ('per shard a pool of 12 configurations (function, method, n, order, step options; configurations 2k and 2k+1 share '
